@@ -5,8 +5,10 @@ V='/verif'
 props=[json.loads(l) for l in open(V+'/properties.jsonl')]
 import glob,os
 claimed={'checks':{},'not_applicable':{},'notes':'All checks: bin/verif check <ID> --tier quick|thorough (rebuilds from /repo working tree through go build -overlay). See DESIGN.md.'}
+accepted=set(open(V+'/checks.d/ACCEPTED').read().split())
 for f in sorted(glob.glob(V+'/checks.d/C*.json')):
-    claimed['checks'][os.path.basename(f)[:-5]]=json.load(open(f))
+    if os.path.basename(f)[:-5] in accepted:
+        claimed['checks'][os.path.basename(f)[:-5]]=json.load(open(f))
 if os.path.exists(V+'/checks.d/not_applicable.json'):
     claimed['not_applicable']=json.load(open(V+'/checks.d/not_applicable.json'))
 engines={}
